@@ -132,11 +132,33 @@ def payout_suite(rng, n):
             c = A.base(ix)
             c["mode"] = "emis"
             lines.append(A.line(c, t=t) + f" k=emis T={t}")
+    lines += unregistered_destination_cells()
     return {"suite": "auth", "name": "emissions-payout", "lines": lines, "impl_only": True,
             "distribution": {"cells": len(lines), "note": "implementation only: handler glue around settle_emissions (token transfer amount, vault, destination)"}}
 
 
+def unregistered_destination_cells():
+    """the permissionless payout is legitimate only because the authority registered a destination wallet beforehand: on an
+    account that never did (the state of every new account), it must be refused whatever token account is passed - in
+    particular the associated token account of the DEFAULT pubkey, which anybody can create and nobody controls"""
+    out = []
+    ix = "lending_account_withdraw_emissions_permissionless"
+    for dest in ("zero.ataem", "u.ataem"):
+        for t in (0, 3600, 86400 * 30):
+            c = A.base(ix)
+            c["mode"] = "emis"
+            c = A.with_tweak(c, "edest0:accA")
+            c = A.with_field(c, "destination_account", dest)
+            out.append(A.line(c, t=t) + f" k=emis0 T={t}")
+    return out
+
+
 def oracle_payout(case, impl):
+    if " k=emis0 " in case:
+        if impl.startswith("OK"):
+            return {"key": "emissions-paid-without-registered-destination",
+                    "what": "lending_account_withdraw_emissions_permissionless paid out on an account that never registered an emissions destination: " + impl[:120]}
+        return None
     if " E " not in impl:
         return None
     pre_out, post_out, dvault, ddest, drem = map(int, impl.split(" E ")[1].split()[:5])
@@ -172,6 +194,8 @@ def destinations_suite():
 def nontrivial(suite, case, impl):
     if suite == "emfund":
         return any(seg.startswith("OK ") and int(seg.split()[3]) > 0 for seg in impl.split(" | "))
+    if suite == "auth" and " k=emis0 " in case:
+        return True
     if suite == "auth" and " k=emis " in case:
         return " E " in impl
     if suite == "auth":
@@ -199,7 +223,7 @@ def nontrivial(suite, case, impl):
 def oracle(suite, case, impl):
     if suite == "emfund":
         return oracle_funding(case, impl)
-    if suite == "auth" and " k=emis " in case:
+    if suite == "auth" and (" k=emis " in case or " k=emis0 " in case):
         return oracle_payout(case, impl)
     if suite == "auth":
         return C08.oracle(suite, case, impl)
